@@ -1041,7 +1041,16 @@ class C10(UnitChanSpec):
                 pool = get_pool(cfg)
             except W.WorkloadError:
                 continue
-            if s == bad_at:
+            if s == bad_at and rng.random() < 0.3:
+                # a conformant sequence with ONE framing fault at its boundary
+                # (what concatenation could mask): the end-of-sequence unit's
+                # next offset, or the first unit's previous offset
+                units = conformant_sequence(rng, pool)
+                if rng.random() < 0.6:
+                    units[-1]["nx"] = rng.choice([13, 13, 13, 26, 1, 12, 14])
+                else:
+                    units[0]["pv"] = rng.choice([13, 1, 26, rng.randrange(1, 200)])
+            elif s == bad_at:
                 units = gen_history(rng, pool, max_units=10)
                 # keep it delimited unless it is the last sequence
                 if s != nseq - 1:
